@@ -28,7 +28,10 @@ def run(rep):
     # a reply that takes long (the actor is busy with an earlier call): the caller waits, whatever the runtime and channel kind
     runs += [["slowreply", lib, ch, "ms=%d" % (5600 if rep.tier == "quick" else 12000)]
              for lib in (("std",) if rep.tier == "quick" else gen_impl.LIBS) for ch in ((0, 1) if rep.tier == "quick" else (0, 1, 2))]
-    rt_common.impl_side(rep, PID, runs, lambda a, d: probe.oracle_mixed(d) if a[0] == "mixed" else probe.oracle_consume(d) if a[0] == "consume" else
+    if PID == "C01":
+        # callers are not only client threads: a method of one actor uses the handle of another actor of the same type
+        runs += [["chain", "std", 0], ["chain", "std", 2]]
+    rt_common.impl_side(rep, PID, runs, lambda a, d: probe.oracle_mixed(d) if a[0] == "mixed" else probe.oracle_consume(d) if a[0] == "consume" else probe.oracle_chain(d) if a[0] == "chain" else
                         probe.oracle_slowreply(d) if a[0] == "slowreply" else probe.oracle_burst(d, None if a[2] == 0 else a[2]))
 
 
